@@ -465,8 +465,8 @@ def known(op, impl_out, model_out, defs):
     t, _ = parse_tokens(w, 1 if w[0] == "C" else 2)
     ok, k4 = nested_status(t)
     for d in defs:
-        if d.get("id") == "C08-K4" and k4 and all_fit(t, True) and model_out is not None \
-                and impl_out == model_out == "crash:asan:heap-buffer-overflow":
+        if d.get("id") == "C08-K4" and k4 and all_fit(t, True) \
+                and impl_out == "crash:asan:heap-buffer-overflow" and model_out in (None, impl_out):
             return "C08-K4 nested bundle element without terminating zero word (rtosc.c:750)"
     return None
 
